@@ -1,0 +1,44 @@
+//go:build verif
+
+package modular
+
+// Contracts for the deductive checker in /verif (comment-only; compiled only under the verif tag).
+//
+// natv / mval are the ghost values of *numct.Nat / *numct.Modulus (see /verif/specs/numct.spec).
+// cinv(x, n): the value the CRT-accelerated ModInv stores for x modulo n (x^-1 mod n when it exists);
+// cinvok(x, n): its success flag. ModInv and the CRT ModMul fan out to goroutines (outside the verifier's subset): their
+// contracts are ASSUMED and say what they store in out, as a function of the operand VALUES AT ENTRY.
+//@ ghost func cinv(x Int, n Int) Int
+//@ ghost func cinvok(x Int, n Int) Int
+
+//@ func (*OddPrimeFactors).ModInv
+//@   assumed
+//@   modifies natv(out)
+//@   ensures natv(out) == cinv(old(natv(a)), mval(m.N)) && result == cinvok(old(natv(a)), mval(m.N))
+//@ func (*OddPrimeFactors).ModMul
+//@   assumed
+//@   modifies natv(out)
+//@   ensures natv(out) == (old(natv(a)) * old(natv(b))) % mval(m.N)
+//@ func (*OddPrimeSquareFactors).ModInv
+//@   assumed
+//@   modifies natv(out)
+//@   ensures natv(out) == cinv(old(natv(a)), mval(m.N2)) && result == cinvok(old(natv(a)), mval(m.N2))
+
+// Division is multiplication of the numerator BY THE INVERSE OF THE DENOMINATOR, for the operand values at entry,
+// whatever the aliasing between out, a and b (no precondition separates them: the basic modulus allows all of it).
+//@ func (*OddPrimeFactors).ModDiv
+//@   property C17
+//@   requires m != nil && out != nil && a != nil && b != nil && mval(m.N) > 1
+//@   modifies natv(out)
+//@   ensures natv(out) == (old(natv(a)) * cinv(old(natv(b)), mval(m.N))) % mval(m.N)
+//@   ensures result == cinvok(old(natv(b)), mval(m.N))
+//@ func (*OddPrimeSquareFactors).ModMul
+//@   property C17
+//@   modifies natv(out)
+//@   ensures natv(out) == (old(natv(a)) * old(natv(b))) % mval(m.N2)
+//@ func (*OddPrimeSquareFactors).ModDiv
+//@   property C17
+//@   requires m != nil && out != nil && a != nil && b != nil && mval(m.N2) > 1
+//@   modifies natv(out)
+//@   ensures natv(out) == (old(natv(a)) * cinv(old(natv(b)), mval(m.N2))) % mval(m.N2)
+//@   ensures result == cinvok(old(natv(b)), mval(m.N2))
